@@ -155,10 +155,9 @@ class PipeWorld:
         return self._geo_nodes[name]
 
     def _is_cellwise_constant(self, o):
-        o = as_T(o)
-        if "cellwise_constant" in o.tags:
-            return bool(o.tags["cellwise_constant"])
-        return False
+        from .uflmodel import cellwise_constant
+
+        return cellwise_constant(o)
 
     def function(self, name, shape=(), cls="Coefficient", mapping="identity", number=0, degree=1):
         """a form argument / coefficient whose value is the push-forward of its reference value r<name>"""
@@ -185,7 +184,7 @@ class PipeWorld:
         space = Obj("space", value_shape=tuple(shape), ufl_domain=lambda: self.dom, ufl_element=lambda: element)
         space.attrs["__class__"] = None
         t = node(val, cls, ())
-        t.tags.update(_ufl_is_terminal_=True, _ufl_typecode_=cls, key=(cls, name), desc=name, ufl_function_space=lambda: space, ufl_element=lambda: element, ufl_domain=lambda: self.dom, _ref=ref, cellwise_constant=False)
+        t.tags.update(_ufl_is_terminal_=True, _ufl_typecode_=cls, key=(cls, name), desc=name, ufl_function_space=lambda: space, ufl_element=lambda: element, ufl_domain=lambda: self.dom, _ref=ref, cellwise_constant=(degree == 0 and cls != "Argument"))
         if cls == "Argument":
             t.tags.update(number=lambda: number, part=lambda: None)
         else:
